@@ -4,7 +4,7 @@ CONSTANTS
   MaxMsgs = 4
   MaxOps = 2
   HopCounts = {0, 1}
-  NbSendFails = FALSE
+  NbSendFails = TRUE
   ClearReadable = TRUE
-INVARIANTS ReplyRouting HoldSound NoLostWakeup PollR PollW
+INVARIANTS ReplyRouting HoldSound NoLostWakeup PollR
 VIEW View
